@@ -272,7 +272,17 @@ def scan_helper(ctx, key, name, want_flag, mutating):
                     item = None
                     if ent is not None and ent[0] == 'field' and ent[2] == '1':
                         item = ent[1]
-                    if not (idxv is not None and idxv[0] == 'field' and idxv[2] == '0' and idxv[1] == item and rem[0].idx > eqbr[-1].idx):
+                    indexed = False
+                    if ent is not None and idxv is not None and rem[0].idx > eqbr[-1].idx:
+                        # index-based scan: `wait_list[i].eq(sig)` ... `wait_list.remove(i)` with the same i
+                        e0 = ent
+                        if e0[0] == 'call' and e0[2] in ('std::ops::Index::index', 'std::collections::VecDeque::get') and len(e0[3]) == 2:
+                            from mir import ci_field_ref as _cfr
+                            if _cfr(e0[3][0]) == 'wait_list' and e0[3][1] == idxv:
+                                indexed = True
+                    if indexed:
+                        pass
+                    elif not (idxv is not None and idxv[0] == 'field' and idxv[2] == '0' and idxv[1] == item and rem[0].idx > eqbr[-1].idx):
                         ctx.violate(key, p, '%s removes an index that is not the position of the matching entry: %s' % (name, fmt(idxv)), at=rem[0].at)
                     elif not enumerate_of_plain_iter(item):
                         ctx.violate(key, p, '%s: the removed index comes from an iterator that is not exactly wait_list.iter().enumerate() (with rev/skip/filter in between the index is not the position in the list: another waiter is removed, the caller\'s entry stays)' % name, at=rem[0].at)
@@ -511,7 +521,7 @@ def q1(ctx):
                         f = None
                         from mir import ci_field_ref
                         f = ci_field_ref(a) if isinstance(a, tuple) else None
-                        if f in ('queue', 'wait_list') and e.data['callee'] not in ('std::iter::Iterator::enumerate',):
+                        if f in ('queue', 'wait_list') and e.data['callee'] not in ('std::iter::Iterator::enumerate', 'std::ops::Index::index'):
                             sites.setdefault(('Q' if f == 'queue' else 'WL', 'ESCAPE:' + e.data['callee']), set()).add((key, e.raw.bb, e.at))
     for which in ('Q', 'WL'):
         ins = set()
